@@ -133,6 +133,31 @@ def malformations(typ):
                               [3], WRONG_KEY, KID, SRC, scope={0: 1, -1: 1}, num=7)
             b['blocks'].insert(0, extra['blocks'][0])
         add('second-block-fails-first-verifies', second_bad_bib)
+
+        def later_bad_bib(b):
+            # the failing block comes *after* the verifying one in block order
+            extra = A.add_bib(dict(primary=b['primary'], blocks=[x for x in b['blocks'] if x['type'] != typ]),
+                              [3], WRONG_KEY, KID, SRC, scope={0: 1, -1: 1}, num=7)
+            idx = sec_index(b, typ)
+            b['blocks'].insert(idx + 1, extra['blocks'][0])
+        add('later-block-fails-earlier-verifies', later_bad_bib)
+
+        def two_targets_first_bad(b):
+            # one block, two targets; the first target's content is altered afterwards
+            plain = dict(primary=b['primary'], blocks=[x for x in b['blocks'] if x['type'] != typ])
+            both = A.add_bib(plain, [3, 1], KEY, KID, SRC, scope={0: 1, -1: 1}, num=4)
+            for x in both['blocks']:
+                if x['num'] == 3:
+                    x['data'] = x['data'] + b'!'
+            b['blocks'] = both['blocks']
+        add('first-of-two-targets-altered', two_targets_first_bad)
+
+        def two_targets_last_bad(b):
+            plain = dict(primary=b['primary'], blocks=[x for x in b['blocks'] if x['type'] != typ])
+            both = A.add_bib(plain, [3, 1], KEY, KID, SRC, scope={0: 1, -1: 1}, num=4)
+            both['blocks'][-1]['data'] = both['blocks'][-1]['data'] + b'!'
+            b['blocks'] = both['blocks']
+        add('last-of-two-targets-altered', two_targets_last_bad)
     else:
         add('iv-removed', lambda b: edit_msg(b, typ, lambda m: m[1].pop(5, None)))
         add('ciphertext-truncated', lambda b: b['blocks'][-1].update(data=b['blocks'][-1]['data'][:-1]))
